@@ -181,6 +181,16 @@ def run_case(i, seed, tier):
             h.apply(op)
         h.extend(g.rng.choice([0, 4]))
         profile = 'special'
+    elif i % 16 == 5:
+        # hybrid images (MBR, GPT and its backup behind the volume, cylinder padding)
+        from harness.props import c12
+        h.sess.close()
+        cfg, hops = c12.build(seed * 1000003 + i, valid_only=True)
+        h = common.History(cfg, seed * 1000003 + i, 'churn', max_size=6000)
+        for op in hops:
+            h.apply(op)
+        profile = 'hybrid'
+        counters['hybrid_cases'] = 1
     else:
         h.extend(nops)
     ops = list(h.ops)
